@@ -26,6 +26,8 @@ CONFIGS = {
     "rtlsdr": dict(dir=REPO, crates="rustradio", args=["--lib", "--features", "rtlsdr"], rustflags=""),
     "family": dict(dir=os.path.join(VERIF, "derive_family"), crates="derive_family", args=["--lib"], rustflags="",
                    harness=True),
+    "family_big": dict(dir=os.path.join(VERIF, "derive_family_big"), crates="derive_family_big", args=["--lib"], rustflags="",
+                       harness=True),
     "positive": dict(dir=os.path.join(VERIF, "positive"), crates="positive", args=["--lib"], rustflags="",
                      harness=True),
 }
